@@ -379,7 +379,7 @@ Proof.
     set (pad := if 0 <? wl mod sp then sp - wl mod sp else 0).
     assert (Hpad : pad + wl = ceil_div wl sp * sp) by (apply pad_rows; lia).
     assert (Hpad0 : 0 <= pad < sp).
-    { subst pad. pose proof (Z.mod_pos_bound wl sp ltac:(lia)). destruct (0 <? wl mod sp); lia. }
+    { subst pad. pose proof (Z.mod_pos_bound wl sp ltac:(lia)). destruct (0 <? wl mod sp) eqn:Epad; lia. }
     assert (Hrows : 0 <= ceil_div wl sp) by nia.
     rewrite zlen_app, zlen_repeat, Hlen, Z2Nat.id by lia.
     destruct (pad + wl =? ceil_div wl sp * sp) eqn:E2; [|lia].
